@@ -32,6 +32,7 @@ class BMC:
         self.queries = 0
         self.solver_s = 0.0
         self._unrolled = None
+        self.init_extra = None  # constraint on the (symbolic) initial state: the slice's representation invariant
 
     # ------------------------------------------------------------------ unrolling
     def var(self, name, k):
@@ -114,6 +115,8 @@ class BMC:
             self._unrolled = cons
             self._f, self._fn, self._selp, self._selnp = f, fn, selp, selnp
         cons = list(self._unrolled)
+        if init_extra is None:
+            init_extra = self.init_extra
         if init_extra is not None:
             cons.append(self.at(init_extra, 0))
         if self.por:
